@@ -5,8 +5,9 @@
 (*  1. abstract descriptions and their concrete syntax  (Render)           *)
 (*  2. what a description means: widths, index sequences, the expected     *)
 (*     normal levels and NUMA nodes, and the relation                      *)
-(*         BuildRel(d, s)                                                  *)
-(*     between a description and the summary s of the loaded topology      *)
+(*         BuildRel(d, F, s)                                               *)
+(*     between a description, the type filters F of the topology it is     *)
+(*     loaded into, and the summary s of the loaded topology               *)
 (*  3. hwloc_topology_export_synthetic: ExportRetRel, SnprintfRel,         *)
 (*     FlagTextRel and the round trip relation RoundTripRel                *)
 (*  4. BuildDo: a constructive model of the build (used by MC_Synthetic to *)
